@@ -54,8 +54,13 @@ def gen_case(rnd, tier: str, i: Any) -> Dict[str, Any]:
     n_steps = rnd.choice([1, 2, 3])
     mode = rnd.choice(["identical", "perturbed", "perturbed", "vocab"])
     control, test = {}, {}
+    ragged = n_ranks > 1 and n_steps >= 2 and rnd.random() < 0.3      # ranks that recorded different (non-empty) subsets of the steps
     for r in range(n_ranks):
-        p = gen_sim.random_params(rnd, tier, rank=r, first_step=first_step, n_steps=n_steps, repeat_names=True)
+        fs, ns = first_step, n_steps
+        if ragged and r > 0:
+            ns = rnd.randint(1, n_steps)
+            fs = first_step + rnd.randint(0, n_steps - ns)
+        p = gen_sim.random_params(rnd, tier, rank=r, first_step=fs, n_steps=ns, repeat_names=True)
         tr = gen_sim.gen_trace(rnd, **p)
         control[f"rank{r}.json"] = tr
         if mode == "vocab":
